@@ -5,6 +5,11 @@ import json, os
 HERE = os.path.dirname(os.path.dirname(os.path.abspath(__file__)))
 
 CLAIMED = {
+    "C09": dict(
+        level="fault_enumeration", ref="DESIGN.md 5.1",
+        technique="deterministic simulation with fault injection on stored path data: seeded torn/lost/duplicated/corrupted records, crash-consistency oracles on the partially built path, deterministic step budget",
+        text="Fault model on stored path data (truncation at any position, token delete/duplicate/replace, character flips incl. control/non-ASCII, junk insertion, missing current point, bad flags, very long inputs) injected into grammar-directed strings and bare fragments; each run checks exception type, a deterministic line-step budget (termination), that the parse of the longest grammar-conforming prefix (independent recogniser) is retained unaltered, and that d()/bbox()/length()/abs(p*M) work on whatever was left behind. Fault kinds and positions are sampled per seed, not enumerated exhaustively.",
+        note="Trusted: the independent SVG 2 grammar recogniser in sim/gen_path.py (where SVG 1.1 and 2 disagree the prefix oracle is skipped and counted); the step-budget constants (20x the pinned tree's maximum); None is accepted only where no current point exists yet (documented path fragments); inf/nan literals skip the follow-up operations."),
     "C17": dict(
         level="exploration", ref="DESIGN.md 5.4",
         technique="deterministic simulation: seeded append histories checked step by step against a single-copy reference (one-shot parse)",
@@ -12,7 +17,6 @@ CLAIMED = {
         note="Trusted: the one-shot parse as reference (what C17 literally states); the generator's grammar coverage (every letter, implicit repetition, inline close); float comparison at 1e-9 relative. Arcs under shear and lazily transformed right operands are outside the property's quantifier and are not generated."),
 }
 BUILDING = {
- "C09": "check under construction (claimed in DESIGN.md 5.1; not yet registered, so not claimed at this commit)",
  "C10": "check under construction (claimed in DESIGN.md 5.2; not yet registered, so not claimed at this commit)",
  "C16": "check under construction (claimed in DESIGN.md 5.3; not yet registered, so not claimed at this commit)",
  "C18": "check under construction (claimed in DESIGN.md 5.5; not yet registered, so not claimed at this commit)",
